@@ -59,6 +59,17 @@ def ground_half_selections(func):
             if h is not None:
                 st = enclosing_stmt(n)
                 out.append((st, h, n))
+        # flags.any() / flags.all() / np.any(flags): a reduction over both halves at once
+        if isinstance(n, ast.Call):
+            red = None
+            if isinstance(n.func, ast.Attribute) and n.func.attr in ('any', 'all') and _ground_base(n.func.value, aliases):
+                red = n
+            elif (dotted(n.func) or '') in ('np.any', 'np.all', 'any', 'all') and n.args and _ground_base(n.args[0], aliases):
+                red = n
+            if red is not None:
+                st = enclosing_stmt(n)
+                out.append((st, 0, n))
+                out.append((st, 1, n))
     return out
 
 
@@ -82,3 +93,141 @@ def check_ground_symmetry(ctx, ck, rule='R-SYM.ground-halves'):
                   'only half %s of the per-half ground flags is consulted: a pulse grounded at its other '
                   'half (wire drawn towards the ground) is treated as not grounded' % sorted(halves))
     return n_sel, n_stmt
+
+
+TOLERANT_CALLS = ('arccos', 'arcsin', 'arctan', 'arctan2', 'acos', 'asin', 'atan', 'atan2', 'isclose', 'allclose',
+                  'degrees', 'radians', 'deg2rad', 'rad2deg', 'round', 'around')
+
+
+def check_vertical_exact(ctx, ck, rule='R-LIT.vertical-exact'):
+    """The fill shortcuts (copied / mirrored matrix entries) are valid for a grounded pulse only if its image half is
+    collinear with it, i.e. the segment is exactly vertical.  The test that switches them off
+    (Pulse.is_non_vertical_grounded) therefore decides on the horizontal direction components being exactly zero:
+    no angle, no tolerance.  Reported: a comparison with a number other than 0 / +-1 (literal or a class / module
+    constant), an inverse trigonometric function or isclose / round in the deciding function."""
+    m = ctx.model
+    f = m.resolve_method('Pulse', 'is_non_vertical_grounded')
+    if f is None:
+        from ..model import AnalysisError
+        raise AnalysisError('anchor vanished: Pulse.is_non_vertical_grounded')
+    from ..symx import class_constants, module_constants
+    consts = {}
+    try:
+        consts.update(module_constants(f.module))
+    except Exception:
+        pass
+    cls_nums = {}
+    for st in getattr(f.cls, 'node', ast.Module(body=[], type_ignores=[])).body if f.cls is not None else []:
+        if isinstance(st, ast.Assign) and len(st.targets) == 1 and isinstance(st.targets[0], ast.Name):
+            cls_nums[st.targets[0].id] = st.value
+
+    def number(e):
+        if isinstance(e, ast.UnaryOp) and isinstance(e.op, (ast.USub, ast.UAdd)):
+            v = number(e.operand)
+            return None if v is None else -v
+        if isinstance(e, ast.Constant) and isinstance(e.value, (int, float)) and not isinstance(e.value, bool):
+            return e.value
+        if isinstance(e, ast.Attribute) and isinstance(e.value, ast.Name) and e.value.id in ('self', 'cls') and e.attr in cls_nums:
+            return number(cls_nums[e.attr])
+        if isinstance(e, ast.Name) and e.id in consts:
+            return number(consts[e.id])
+        if isinstance(e, ast.BinOp):
+            l, r = number(e.left), number(e.right)
+            if l is not None and r is not None:
+                try:
+                    return {ast.Add: l + r, ast.Sub: l - r, ast.Mult: l * r}.get(type(e.op)) if not isinstance(e.op, ast.Div) \
+                        else l / r
+                except ZeroDivisionError:
+                    return None
+        return None
+    bad = None
+    n_tests = 0
+    for n in walk_no_nested(f.node):
+        if isinstance(n, ast.Compare):
+            n_tests += 1
+            for c in [n.left] + list(n.comparators):
+                v = number(c)
+                if v is not None and v not in (0, 1, -1):
+                    bad = bad or ('a comparison with %s (%s): a tolerance / angle threshold' % (norm(c), v), n)
+        if isinstance(n, ast.Call):
+            d = (dotted(n.func) or '').split('.')[-1]
+            if d in TOLERANT_CALLS:
+                bad = bad or ('%s(): an angle / tolerance instead of exact zero tests of the horizontal components' % d, n)
+        if isinstance(n, ast.BoolOp):
+            n_tests += 1
+    # both horizontal components (or the pair as a slice) are consulted
+    comps = set()
+    for n in walk_no_nested(f.node):
+        if isinstance(n, ast.Subscript) and isinstance(n.value, ast.Attribute) and n.value.attr in ('dirvec', 'dirs', 'direction'):
+            if isinstance(n.slice, ast.Constant) and n.slice.value in (0, 1, 2):
+                comps.add(n.slice.value)
+            elif isinstance(n.slice, ast.Slice):
+                up = n.slice.upper
+                if n.slice.lower is None and isinstance(up, ast.Constant) and up.value == 2:
+                    comps |= {0, 1}
+    if bad is None and comps and not ({0, 1} <= comps) and 2 not in comps:
+        bad = ('only the horizontal component(s) %s of the direction are consulted' % sorted(comps), f.node)
+    ck.ob(rule, f.qual, bad is None, f.loc(bad[1]) if bad else f.loc(),
+          'decided by exact tests of the direction components (%d tests)' % n_tests if bad is None else
+          '%s: a grounded wire leaning less than the threshold keeps the shortcuts that are only valid for an exactly '
+          'vertical wire' % bad[0])
+    return n_tests
+
+
+def check_half_weight_symmetry(ctx, ck, rule='R-SYM.half-weights', entry='mininec.Mininec.compute_far_field'):
+    """The far field weights every half segment of every pulse by an array of shape (pulses, 2 halves, 3 components)
+    (built with np.tile(.., (n, 2, 1)) and copies of it).  Which half of a grounded pulse is the one above ground
+    depends on the end the wire is grounded with, so a store that picks the half by a literal index
+    (`w[on_ground, 1, :2] = 0`) must come with the same store for the other half; the per-half boolean masks
+    (pv.ground, pv.inv_ground) address the right half by themselves.  Returns the number of weight arrays found."""
+    from ..rules import self_closure
+    m = ctx.model
+    n_arr = 0
+    for g in self_closure(ctx, m.func(entry)):
+        half = set()
+        for _ in range(3):
+            for s in walk_no_nested(g.node):
+                if isinstance(s, ast.Assign) and len(s.targets) == 1 and isinstance(s.targets[0], ast.Name):
+                    v = s.value
+                    if isinstance(v, ast.Call):
+                        d = (dotted(v.func) or '').split('.')[-1]
+                        if d in ('tile', 'zeros', 'ones', 'empty', 'full') and len(v.args) >= 1:
+                            shp = v.args[1] if d == 'tile' and len(v.args) > 1 else v.args[0]
+                            if isinstance(shp, ast.Tuple) and len(shp.elts) == 3 and \
+                                    isinstance(shp.elts[1], ast.Constant) and shp.elts[1].value == 2 and \
+                                    'len' in norm(shp.elts[0]):
+                                half.add(s.targets[0].id)
+                        if d == 'copy' and ((v.args and isinstance(v.args[0], ast.Name) and v.args[0].id in half) or
+                                            (isinstance(v.func, ast.Attribute) and isinstance(v.func.value, ast.Name)
+                                             and v.func.value.id in half)):
+                            half.add(s.targets[0].id)
+        n_arr += len(half)
+        for nm in sorted(half):
+            groups = {}
+            for s in walk_no_nested(g.node):
+                t = v = None
+                op = '='
+                if isinstance(s, ast.Assign) and len(s.targets) == 1:
+                    t, v = s.targets[0], s.value
+                elif isinstance(s, ast.AugAssign):
+                    t, v, op = s.target, s.value, type(s.op).__name__
+                if not (isinstance(t, ast.Subscript) and isinstance(t.value, ast.Name) and t.value.id == nm):
+                    continue
+                sl = t.slice
+                if not (isinstance(sl, ast.Tuple) and len(sl.elts) >= 2):
+                    continue
+                h = sl.elts[1]
+                if isinstance(h, ast.Constant) and h.value in (0, 1) and not isinstance(h.value, bool):
+                    rest = (norm(sl.elts[0]),) + tuple(norm(e) for e in sl.elts[2:])
+                    groups.setdefault((rest, op, norm(v)), {})[h.value] = s
+            bad = [(k, hs) for k, hs in groups.items() if set(hs) != {0, 1}]
+            if bad:
+                k, hs = bad[0]
+                st = list(hs.values())[0]
+                ck.ob(rule, '%s|%s' % (g.qual, nm), False, g.loc(st),
+                      '`%s` changes half %d of the weights only: for a wire grounded with its other end the half above '
+                      'ground is the other one' % (norm(st)[:70], list(hs)[0]))
+            else:
+                ck.ob(rule, '%s|%s' % (g.qual, nm), True, g.loc(),
+                      'per-half weights `%s`: %d stores pick a half by literal index, each for both halves' % (nm, 2 * len(groups)))
+    return n_arr
